@@ -3,6 +3,7 @@ against the Lean models `sem` and `limiter`) + independent history oracles."""
 
 from __future__ import annotations
 
+import itertools
 import math
 import random
 import re
@@ -244,7 +245,7 @@ def gen_sem(rng: random.Random, max_tasks: int, max_ops: int) -> dict:
 def gen_lim(rng: random.Random, max_tasks: int, max_ops: int, misuse: bool = False) -> dict:
     n = rng.randint(2, max_tasks)
     total: Any = rng.choice([0, 1, 1, 1, 2, 2, 3, 4, "inf"])
-    pool = [BORROWER_BASE + k for k in range(rng.randint(1, 3))]
+    pool = [BORROWER_BASE + k for k in range(rng.randint(1, 4))]
     scripts = []
     for t in range(n):
         ops: list[list] = []
@@ -254,41 +255,41 @@ def gen_lim(rng: random.Random, max_tasks: int, max_ops: int, misuse: bool = Fal
             r = rng.random()
             others = [j for j in range(n) if j != t]
             pre = ["pre"] if rng.random() < 0.07 else []
-            if r < 0.14:
+            if r < 0.20:
                 ops.append(["acquire"] + pre)
                 own = True
-            elif r < 0.18:
+            elif r < 0.25:
                 ops.append(["acquire_nowait"])
                 own = True
-            elif r < 0.30:
+            elif r < 0.40:
                 b = rng.choice(pool)
                 ops.append(["acquire_on_behalf_of", b] + pre)
                 mine.append(b)
-            elif r < 0.35:
+            elif r < 0.44:
                 b = rng.choice(pool)
                 ops.append(["acquire_on_behalf_of_nowait", b])
                 mine.append(b)
-            elif r < 0.55:
+            elif r < 0.64:
                 c = rng.random()
                 if own and c < 0.5:
                     ops.append(["release"])
                     own = False
-                elif mine and c < 0.9:
+                elif mine and c < 0.92:
                     ops.append(["release_on_behalf_of", mine.pop(rng.randrange(len(mine)))])
-                elif c < 0.95:
+                elif c < 0.96:
                     ops.append(["release_on_behalf_of", rng.choice(pool)])  # maybe someone else's / nobody's
                 else:
                     ops.append(["release"])
                 if rng.random() < 0.35:  # aim at the hand-over cycle
                     ops.append([rng.choice(["ncancel", "cancel"]), rng.choice(others)])
-            elif r < 0.70:
+            elif r < 0.73:
                 v: Any = rng.choice([0, 1, 1, 2, 2, 3, 4, 5, "inf"])
                 ops.append(["set_total", v])
-                if rng.random() < 0.5:  # lower, then raise again (the F1 shape)
+                if rng.random() < 0.4:  # lower, then raise again (the F1 shape)
                     ops.append(["set_total", rng.choice([1, 2, 3, 4, "inf"])])
                 if rng.random() < 0.25:
                     ops.append([rng.choice(["ncancel", "cancel"]), rng.choice(others)])
-            elif misuse and r < 0.74:
+            elif misuse and r < 0.77:
                 ops.append(["set_total_bad", rng.choice(["neg", "type"])])
             else:
                 gen_tail(rng, n, t, ops)
@@ -302,6 +303,35 @@ def gen_lim(rng: random.Random, max_tasks: int, max_ops: int, misuse: bool = Fal
     if misuse:
         case["misuse"] = True
     return case
+
+
+
+def enum_cases():
+    """small-scope enumeration (thorough tier): all scripts over small alphabets for three tasks --
+    task 0 takes and gives back, task 1 interferes (cancels task 2, changes the total), task 2 is
+    the waiter.  Validation of the models, not a proof."""
+    a0 = [["acquire"], ["release"], ["yield"]]
+    a1 = [["acquire"], ["release"], ["cancel", 2], ["ncancel", 2], ["yield"]]
+    tails = ([["acquire"], ["release"]], [["yield"], ["acquire"], ["release"]])
+    for init, mx, fast in itertools.product((0, 1), (None, 1), (False, True)):
+        for s0 in itertools.product(a0, repeat=2):
+            for l1 in (1, 2, 3):
+                for s1 in itertools.product(a1, repeat=l1):
+                    for s2 in tails:
+                        yield {"kind": "sem", "cfg": {"init": init, "max": mx, "fast": fast},
+                               "scripts": [[list(o) for o in s0], [list(o) for o in s1], [list(o) for o in s2]]}
+    b0 = [["acquire"], ["release"], ["yield"], ["set_total", 0], ["set_total", 2]]
+    b1 = [["acquire"], ["release"], ["cancel", 2], ["ncancel", 2], ["set_total", 1],
+          ["acquire_on_behalf_of", BORROWER_BASE], ["release_on_behalf_of", BORROWER_BASE]]
+    btails = ([["acquire"], ["release"]],
+              [["yield"], ["acquire_on_behalf_of", BORROWER_BASE + 1], ["release_on_behalf_of", BORROWER_BASE + 1]])
+    for total in (0, 1, 2):
+        for s0 in itertools.product(b0, repeat=2):
+            for l1 in (1, 2):
+                for s1 in itertools.product(b1, repeat=l1):
+                    for s2 in btails:
+                        yield {"kind": "lim", "cfg": {"total": total},
+                               "scripts": [[list(o) for o in s0], [list(o) for o in s1], [list(o) for o in s2]]}
 
 
 # --------------------------------------------------------------------------- oracles
@@ -721,13 +751,13 @@ def run(ctx: Ctx) -> Result:
                       "suspend and was resumed or a cancellation landed inside an operation; distinct = "
                       "distinct event traces")
     cases = [c for c in load_corpus("C10")]
-    n = ctx.n(500, 14000)
+    n = ctx.n(6000, 60000)
     mt, mo = (4, 7) if ctx.tier == "quick" else (6, 10)
     focus = ctx.focus.get("kind") if isinstance(ctx.focus, dict) else None
     for i in range(n):
         kind = focus if focus and i % 4 else ("sem" if i % 5 < 2 else "lim")
         cases.append(gen_sem(ctx.rng, mt, mo) if kind == "sem" else gen_lim(ctx.rng, mt, mo))
-    cases += [gen_lim(ctx.rng, 4, 7, misuse=True) for _ in range(ctx.n(40, 400))]
+    cases += [gen_lim(ctx.rng, 4, 7, misuse=True) for _ in range(ctx.n(200, 2000))]
     for c in cases:
         if c.get("misuse"):
             # the same borrower waiting twice: two tasks, one borrower object, limiter full
@@ -735,6 +765,9 @@ def run(ctx: Ctx) -> Result:
                 c["cfg"]["total"] = ctx.rng.choice([0, 1])
                 c["scripts"][0][:0] = [["acquire_on_behalf_of", BORROWER_BASE]]
                 c["scripts"][1][:0] = [["acquire_on_behalf_of", BORROWER_BASE]]
+    if ctx.tier == "thorough" and ctx.budget == 1.0:
+        cases += list(enum_cases())
+        res.stats["enumerated_small_scope"] = True
     for i in range(0, len(cases), 500):
         run_cases(cases[i: i + 500], res, eager_every=7)
         if ctx.time_left() < 0:
